@@ -4,7 +4,7 @@ P: AnnotatedMetricFunction.__call__ (all arguments are columns of the same frame
    (column key and mapping per parameter), MetricFrame._extract_result; lemma column_name_injectivity over the contract (z3 strings) -
    refuted, replayed natively: known finding C01:sample-param-column-name-collision.
 """
-from ..contracts.metricframe import AnnotatedCall, ConstructAMF, ExtractResult, column_name_injectivity
+from ..contracts.metricframe import AnnotatedCall, ApplyFunctions, ApplyToDataframe, ConstructAMF, Create, ExtractResult, column_name_injectivity
 from ..pyvc import solve, verify
 from ..pyvc.util import model_str
 
@@ -27,7 +27,8 @@ def _replay_collision(model):
 def run_deductive(rep):
     rep.assume("A2", "A3", "A4", "A7")
     rep.trust("pandas df[col] selects the column; list()/np.asarray copy values positionally (assumed)", "z3 (string theory)", "pyvc symbolic executor",
-              "groupby/apply/reindex contracts of _apply_functions are not under a deductive contract: bounded stand-in only")
+              "pandas groupby(keys).apply(f) evaluates f on the rows of every observed key combination; reindex(product index) adds missing combinations as NaN (assumed; "
+              "the obligations check that fairlearn calls them with the right keys, function and index)")
     items = [(AnnotatedCall({}), []),
              (AnnotatedCall({"sample_weight": "m_sample_weight", "extra": "m_extra"}),
               [("keyword_read_from_its_own_name_instead_of_mapped_column", verify.replace_expr("df[data_arg_name]", "df[func_arg_name]")),
@@ -40,6 +41,16 @@ def run_deductive(rep):
     for c in (True, False):
         for h in (True, False):
             items.append((ExtractResult(c, h), [("row_and_column_swapped", verify.replace_expr("underlying_result.iloc[0]", "underlying_result.iloc[:, 0]"))] if (c and not h) else []))
+    for k in (0, 1, 3):
+        items.append((ApplyToDataframe(k), []))
+    for names in (None, [], ["s1"], ["c1", "s1"], ["c1", "s1", "s2"]):
+        can = []
+        if names == ["c1", "s1"]:
+            can = [("missing_combinations_dropped", verify.replace_expr("temp.reindex(index=all_indices)", "temp")),
+                   ("grouped_by_the_last_feature_only", verify.replace_expr("data.groupby(grouping_names)", "data.groupby(grouping_names[-1:])"))]
+        items.append((ApplyFunctions(names), can))
+    items.append((Create(True), [("sensitive_levels_before_control_levels", verify.replace_expr("(control_feature_names or []) + sensitive_feature_names", "sensitive_feature_names + (control_feature_names or [])"))]))
+    items.append((Create(False), []))
     verify.verify_many(rep, items)
     fn = "fairlearn/metrics/_metric_frame.py::MetricFrame._construct_annotated_metric_function"
     for name, hyps, goal in column_name_injectivity():
